@@ -34,7 +34,10 @@ class Hang(BaseException):
 
 
 EXC = {"ValueError": lambda m: ValueError(m), "LinAlgError": lambda m: np.linalg.LinAlgError(m),
-       "InjectedFault": lambda m: InjectedFault(m)}
+       "InjectedFault": lambda m: InjectedFault(m), "AttributeError": lambda m: AttributeError(m),
+       "TypeError": lambda m: TypeError(m), "KeyError": lambda m: KeyError(m), "IndexError": lambda m: IndexError(m),
+       "RuntimeError": lambda m: RuntimeError(m), "AssertionError": lambda m: AssertionError(m),
+       "ZeroDivisionError": lambda m: ZeroDivisionError(m), "OSError": lambda m: OSError(m)}
 
 K = 3
 INIT = None
@@ -229,6 +232,11 @@ def plan(ctx):
                 tasks.append((mode, "task", (r, k), "ValueError", "ok"))
         for exc in ("LinAlgError", "InjectedFault"):
             tasks.append((mode, "task", (1, 1), exc, "ok"))
+        if mode in ("default", "virtual"):
+            # "the original error": every common built-in class must come through unchanged
+            for exc in ("AttributeError", "TypeError", "KeyError", "IndexError", "RuntimeError", "AssertionError",
+                        "ZeroDivisionError", "OSError"):
+                tasks.append((mode, "task", (1, 0) if mode == "default" else (0, 2), exc, "ok"))
             if ctx.thorough:
                 for (r, k) in ((0, 0), (2, 2), (0, 2)):
                     tasks.append((mode, "task", (r, k), exc, "ok"))
@@ -276,8 +284,8 @@ def run(ctx):
     ctx.cov["exhaustive"] = True
     ctx.cov["rule"] = (
         "fault points: optimisation task (r,k) for every r<3, k<3 x pool mode {default Pool(1), multiprocessing on "
-        "with P=K, P=2, virtual} raising ValueError (LinAlgError and a harness-defined class at (1,1); thorough: 3 "
-        "more points); phase fault at every (round<3, phase in repop/stats/opt/relabel) and in the three metric "
+        "with P=K, P=2, virtual} raising ValueError (LinAlgError and a harness-defined class at (1,1); eight more built-in classes "
+        "incl. AttributeError/TypeError/KeyError at one point each for Pool(1) and virtual; thorough: 3 more points); phase fault at every (round<3, phase in repop/stats/opt/relabel) and in the three metric "
         "functions x {default, P=K}; no-donor (no donor at all; one donor that can serve only two of three needy clusters), joint-style input (list, tuple, iterator, deque of arrays) to ticc_labels, array to ticc_joint_labels x {default, P=K}. "
         "Each scenario in its own fresh process with a 60 s watchdog: expected exception type and message, no "
         "result, no live children while the exception is referenced, clean follow-up call bitwise equal to the "
